@@ -400,6 +400,35 @@ def wire_rate_oracle(ops, out, endpoints=(0, 1)):
     return None
 
 
+def rtt_recovery_oracle(ops, out, window_ms=30000, min_packets=10):
+    """C11, lasting change of the round-trip time (rttstep stream): during the last `window_ms` of virtual time — more
+    than half a minute after the change, on a loss-free link, with the application submitting a Reliable packet every
+    round — the receiver must have been handed at least `min_packets` packets. A sender pinned at its minimum rate
+    (one frame per several seconds) does not get there; one that has adapted delivers a packet per round."""
+    ev = events(ops, out)
+    end = 0
+    for (t, info, term) in ev:
+        if t[0] == "step":
+            end = max(end, int(t[2]))
+    got, now = 0, 0
+    submitted_before = 0
+    for (t, info, term) in ev:
+        if t[0] == "step":
+            now = int(t[2])
+        if t[0] == "send" and now < end - window_ms:
+            submitted_before += 1
+        if t[0] == "recv" and t[1] == "1" and now > end - window_ms:
+            got += sum(1 for l in info if l.startswith("pkt "))
+    total = sum(1 for o in ops if o.startswith("send 0 "))
+    delivered_all = sum(1 for (t, info, term) in ev if t[0] == "recv" for l in info if l.startswith("pkt "))
+    if delivered_all >= total:
+        return None
+    if got < min_packets:
+        return "only %d packets were handed out during the last %d s of a loss-free link, %d s after its round-trip time changed (%d of %d submitted packets delivered in all): the sender stays at its minimum rate" % (
+            got, window_ms // 1000, (end - window_ms) // 1000, delivered_all, total)
+    return None
+
+
 def stall_oracle(ops, out, pairs=((0, 1), (1, 0)), rounds=24):
     """C02/C11 liveness: in the final loss-free phase (relay ops with no faults), a sender that still has
     work pending must make progress; no progress over the last `rounds` loss-free rounds (60 s of virtual
